@@ -13,12 +13,13 @@ import (
 	"time"
 
 	"github.com/google/martian/v3/mitm"
+	"github.com/google/martian/v3/trafficshape"
 	"github.com/google/martian/v3/zzverif/vf"
 )
 
 // nativeTunnel drives the same scenario over a real in-memory connection with
 // the real crypto/tls and a real MITM authority (replay only).
-func nativeTunnel(p *Proxy, connect, inner []byte, startsTLS bool, n int) {
+func nativeTunnel(p *Proxy, connect, inner []byte, startsTLS bool, n int, shaped bool) {
 	ca, priv, err := mitm.NewAuthority("verif", "verif", time.Hour)
 	if err != nil {
 		panic(err)
@@ -57,7 +58,11 @@ func nativeTunnel(p *Proxy, connect, inner []byte, startsTLS bool, n int) {
 			io.Copy(io.Discard, res.Body)
 		}
 	}()
-	serveConn(p, pc)
+	var sc net.Conn = pc
+	if shaped {
+		sc = trafficshape.NewListener(nil).GetTrafficShapedConn(pc)
+	}
+	serveConn(p, sc)
 	<-done
 }
 
@@ -125,6 +130,9 @@ func VerifC05Tunnel() {
 	p.SetRoundTripper(o)
 	p.SetRequestModifier(m)
 	p.SetResponseModifier(m)
+	// the listener the connection was accepted on: plain, or traffic-shaped (the proxy then sees
+	// a *trafficshape.Conn, and wraps the decrypted connection in one as well)
+	shaped := vf.Choice("traffic-shaped-listener", 2) == 1
 	if vf.Symbolic() {
 		var segs [][]byte
 		if startsTLS {
@@ -133,9 +141,13 @@ func VerifC05Tunnel() {
 			segs = [][]byte{connect, inner.Bytes()}
 		}
 		p.SetMITM(new(mitm.Config))
-		serveConn(p, newClientConn("client", true, segs...))
+		var cc net.Conn = newClientConn("client", true, segs...)
+		if shaped {
+			cc = trafficshape.NewListener(nil).GetTrafficShapedConn(cc)
+		}
+		serveConn(p, cc)
 	} else {
-		nativeTunnel(p, connect, inner.Bytes(), startsTLS, n)
+		nativeTunnel(p, connect, inner.Bytes(), startsTLS, n, shaped)
 	}
 
 
@@ -169,7 +181,8 @@ func VerifC05Tunnel() {
 			}
 			if r.hijackedConn != nil {
 				_, isTLS := r.hijackedConn.(*tls.Conn)
-				vf.Assert(isTLS, "hijacker-after-upgrade-receives-the-decrypted-connection")
+				_, isShaped := r.hijackedConn.(*trafficshape.Conn)
+				vf.Assert(isTLS || (shaped && isShaped), "hijacker-after-upgrade-receives-the-decrypted-connection")
 			}
 		} else {
 			vf.Assert(r.scheme == "http" && !r.secure && !r.hasTLS, "non-tls-tunnel-handled-as-plain-http-on-an-insecure-session")
